@@ -141,8 +141,12 @@ impl C17 {
         if let J::Map(m) = &parts[0] {
             merged.extend(m.iter().cloned());
         }
+        // a second rules file (used by the plain-mode probe only: EVERY rules file is evaluated
+        // against the merged document, not just the first)
+        let prog1 = rules::gen_prog(&mut Rng::stream(seed, "workload-r1"), &full, &o);
         let mut files = vec![
             FileSpec { rel: "rules/r0.guard".into(), bytes: prog.print().into_bytes(), mtime_ns: 0 },
+            FileSpec { rel: "rules/r1.guard".into(), bytes: prog1.print().into_bytes(), mtime_ns: 0 },
             FileSpec { rel: "data/d0.json".into(), bytes: doc::render(&parts[0], DocFmt::JsonPretty).into_bytes(), mtime_ns: 0 },
             FileSpec { rel: "merged/m0.json".into(), bytes: doc::render(&J::Map(merged.clone()), DocFmt::JsonPretty).into_bytes(), mtime_ns: 0 },
         ];
@@ -162,6 +166,7 @@ impl C17 {
             rep.count("gen.two_data_files", 1);
         }
         let mut params = Vec::new();
+        let mut rx = Rng::stream(seed, "workload-ext");
         let same_base = r.chance(1, 3);
         if same_base {
             rep.count("gen.same_base_name_layout", 1);
@@ -185,6 +190,18 @@ impl C17 {
             // files like any other)
             let rel = if same_base { format!("params/s{}/params.json", p) } else if dotted && p == nparams { format!("params/.p{}.{}", p, fmt.ext()) } else if dotted && p == 1 && nparams > 1 { format!("params/.hidden/q{}.{}", p, fmt.ext()) } else { format!("params/p{}.{}", p, fmt.ext()) };
             let fmt = if same_base { DocFmt::JsonPretty } else { fmt };
+            // every extension the tool accepts for data is accepted for parameter files too
+            // (`.yml`, `.jsn`, `.template`); drawn from a stream of its own
+            let rel = if !same_base && rx.chance(1, 3) {
+                let ext = match fmt {
+                    DocFmt::YamlBlock => *rx.pick(&["yml", "template"]),
+                    _ => *rx.pick(&["jsn", "template"]),
+                };
+                rep.count("gen.other_accepted_extension", 1);
+                format!("{}.{}", rel.rsplit_once('.').map(|(a, _)| a).unwrap_or(&rel), ext)
+            } else {
+                rel
+            };
             if linked == 0 || (linked == 1 && p == nparams) {
                 let store = format!("store/{}", rel.trim_start_matches("params/"));
                 let up = "../".repeat(rel.matches('/').count());
@@ -340,6 +357,45 @@ impl C17 {
             }
             return None;
         }
+        if d.kind.starts_with("tworules") {
+            // plain mode, two rules files: the reference is the SAME command on the pre-merged
+            // documents (plain output has one report per rules file x data file)
+            let mut rargv: Vec<String> = Vec::new();
+            let mut skip = false;
+            for a in &d.argv {
+                if skip {
+                    if a.starts_with('-') {
+                        skip = false;
+                    } else {
+                        continue;
+                    }
+                }
+                if a == "-i" {
+                    skip = true;
+                    continue;
+                }
+                rargv.push(a.replace("@/data/d", "@/merged/m"));
+            }
+            let (rc, rout) = self.run(w, &rargv, &None, "asc", 1, &FaultSpec::Off, rep);
+            rep.count("reach.two_rules_files_plain", 1);
+            if !(rc == "exit:0" || rc == "exit:19") {
+                if c == "exit:0" || c == "exit:19" {
+                    return Some((format!("{}/error-lost", d.kind), format!("the pre-merged documents give {rc} but the parameterised run gives {c}")));
+                }
+                return None;
+            }
+            if c != rc {
+                return Some((format!("{}/exit", d.kind), format!("pre-merged documents exit {rc}, `{}` exits {c}", d.argv.join(" ").replace("@/", ""))));
+            }
+            let (got, want) = (verdicts(&out, false), verdicts(&rout, false));
+            if got.is_none() || want.is_none() {
+                return Some((format!("{}/unparsable", d.kind), "output is not the expected JSON".into()));
+            }
+            if got != want {
+                return Some((format!("{}/verdicts", d.kind), format!("per-rule verdicts of some rules file differ from the pre-merged documents for `{}`", d.argv.join(" ").replace("@/", ""))));
+            }
+            return None;
+        }
         if !(refc == "exit:0" || refc == "exit:19") && d.stdin.is_some() && scn.ndata > 1 {
             // the reference covers both data files, stdin only the first: which one errs is unknown
             rep.count("skipped.reference_error_with_stdin", 1);
@@ -431,7 +487,27 @@ impl Check for C17 {
             Tier::Thorough => 12,
         };
         let mut r = Rng::stream(seed, "deliveries");
-        let ds = self.deliveries(&mut r, &scn, k);
+        let mut ds = self.deliveries(&mut r, &scn, k);
+        {
+            // plain mode with two rules files (every rules file must see the merged parameters)
+            let mut r2 = Rng::stream(seed, "tworules");
+            let mut argv = sv(&["cfn-guard", "validate"]);
+            if r2.chance(1, 2) {
+                argv.extend(sv(&["-r", "@/rules/r0.guard", "-r", "@/rules/r1.guard"]));
+            } else {
+                argv.extend(sv(&["-r", "@/rules"]));
+            }
+            argv.extend(sv(&["-d", "@/data/d0.json"]));
+            if scn.ndata == 2 {
+                argv.extend(sv(&["-d", "@/data/d1.json"]));
+            }
+            for i in r2.perm(scn.params.len()) {
+                argv.push("-i".into());
+                argv.push(format!("@/{}", scn.params[i]));
+            }
+            argv.extend(sv(&["-o", "json", "-S", "none"]));
+            ds.push(Dlv17 { kind: "tworules-plain".into(), argv, dir_mode: "asc".into(), dir_seed: 1, mtimes: BTreeMap::new(), stdin: None, faults: FaultSpec::Off, dup: false });
+        }
         let mut done: Vec<String> = Vec::new();
         for d in &ds {
             rep.count(&format!("delivery.{}", d.kind), 1);
